@@ -52,7 +52,7 @@ def random_request(rng, allow_fwd_in_conn=True):
 
 
 def random_response(rng):
-    return {"status": rng.choice([200, 200, 201, 404, 500, 503]), "e2e": rng.sample(["X-Resp", "Content-Type", "Etag", "Set-Cookie"], rng.randint(0, 3)),
+    return {"status": rng.choice([200, 200, 201, 203, 226, 299, 404, 418, 451, 499, 500, 503, 511, 599, 600, 799, 999]), "e2e": rng.sample(["X-Resp", "Content-Type", "Etag", "Set-Cookie"], rng.randint(0, 3)),
             "hop": rng.sample(["Keep-Alive", "Proxy-Authenticate", "Trailer"], rng.randint(0, 2)),
             "conn": rng.sample(["X-Hop-Custom"], rng.randint(0, 1)),
             "size": rng.choice([0, 1, 100, 4096, 70000, 300000]), "chunked": rng.random() < 0.5, "chunk": rng.choice([1, 7, 1000, 65536]),
